@@ -95,6 +95,7 @@ class ServerWorld:
         self.producer = {}         # datagram bytes -> id of the client that produced them (replays keep their producer)
         self.goodbye = set()       # addresses whose client said goodbye / was kicked: their disconnect is not a silence time-out
         self.stopped_req = False
+        self.on_disconnect = None  # optional application behaviour inside the handler's disconnect event (e.g. "match over": close the other players)
 
         class Hn(self.H.EventHandler):
             def _maybe(s, what):
@@ -116,6 +117,8 @@ class ServerWorld:
 
             def disconnect(s, client):
                 world.hev("disconnect", client)
+                if world.on_disconnect:
+                    world.on_disconnect(client)
                 s._maybe("disconnect")
 
             def handle_message(s, client, seqnum, msg=b""):
@@ -237,7 +240,27 @@ class ServerWorld:
 
     def client_out(self, cid, d):
         c = self.clients[cid]
-        self.ev.append(dict(ev="csend", now=self.now(), c=cid, a=self.aid(c["addr"]), n=len(d)))
+        # how the client's datagram is protected, by the harness's own reading: 1 = opens under the client's session key, 2 = plain with a valid CRC, 0 = neither
+        sealed = 0
+        conn = c["cl"].conn
+        key = getattr(conn, "session_key_bytes", None) if conn is not None else None
+        if key:
+            try:
+                from cryptography.hazmat.primitives.ciphers.aead import AESGCM
+                AESGCM(key).decrypt(d[:12], d[20:], d[:20])
+                sealed = 1
+            except Exception:
+                pass
+        if not sealed:
+            try:
+                import struct as st
+                ln = st.unpack(">H", d[13:15])[0]
+                body = d[:20 + ln]
+                if st.unpack(">L", d[20 + ln:24 + ln])[0] == impl.mod("crypto").crc32(body):
+                    sealed = 2
+            except Exception:
+                pass
+        self.ev.append(dict(ev="csend", now=self.now(), c=cid, a=self.aid(c["addr"]), n=len(d), ptype=d[12] if len(d) > 12 else -1, count=d[15] if len(d) > 15 else -1, sealed=sealed))
         self.seen_from[c["addr"]].append(d)
         self.producer[d] = cid
         if not c["cut"]:
